@@ -236,3 +236,15 @@ package interp
 //@   opt opaque-havoc = none
 //@   requires [assume] interp != nil && interp.frame != nil && s != nil && syms != nil
 //@   ensures variable-is-the-slot-of-the-root-frame: has(syms, n) && syms[n] == interp.frame.data[s.index]
+
+// getWrapper: the host-side wrapper for a script value passed as a host interface is the FIRST composed
+// wrapper (io.Reader+WriterTo, http.ResponseWriter+Hijacker, ...) all of whose methods are in the COMPLETE
+// method set of the script type — methods promoted from embedded host types included — so that the host
+// sees the optional interfaces the value really has.
+//@ lit getWrapper for:NumField () ()
+//@   props C07
+//@   opt safety = off
+//@   opt opaque-calls = *
+//@   opt opaque-havoc = none
+//@   requires [assume] rt != nil && i >= 1
+//@   ensures wrapper-method-i-is-looked-up-in-the-complete-method-set: match == (old(match) && has(lm, substr(rt.Field(i).Name, 1, len(rt.Field(i).Name))))
